@@ -19,10 +19,10 @@ import (
 	"vh/scen"
 )
 
-var c19E2EOwn = []string{"Name string", "ID int", "Σ string", "name string", "status string"}
+var c19E2EOwn = []string{"Name string", "ID int", "Σ string", "name string", "status string", "max int"}
 var c19E2EDeep = []string{"Owner Own", "Tag string"}
 var c19E2ETop = []string{"Name string", "name string", "NAME string", "FirstName string", "Names string", "ID int", "IDs []int",
-	"Straße string", "STRASSE string", "Σας string", "ΣΑΣ string", "K string", "Kk int", "Nameſ string", "street string", "town string", "data string", "Owner Own", "Deep Dp", "Base"}
+	"Straße string", "STRASSE string", "Σας string", "ΣΑΣ string", "K string", "Kk int", "Nameſ string", "street string", "town string", "data string", "len int", "error string", "String string", "Owner Own", "Deep Dp", "Base"}
 
 // an EMBEDDED struct: the paths of its members carry the embedded type's name
 var c19E2EBase = []string{"ID int", "Note string"}
@@ -90,6 +90,23 @@ type c19E2EPat struct {
 	Feat string
 }
 
+// c19E2EPatS is a pattern with, optionally, a SECOND :skip line on the same method: a path is
+// skipped iff one of the two patterns matches it, each pattern judged on its own.
+type c19E2EPatS struct {
+	c19E2EPat
+	Second string
+}
+
+// c19E2EPairs: flags and groups of one pattern end with that pattern.
+var c19E2EPairs = [][3]string{
+	{`/(?i)^name$/`, "two-patterns-flag-i", `/^id$/`}, {`/(?-i)^Name$/`, "two-patterns-flag-neg-i", `/^id$/`},
+	{`/^id$/`, "two-patterns-flag-i", `/(?i)^name$/`}, {`/(?i)^street$/`, "two-patterns-flag-i", `/^Town$/`},
+	{`/(?s)^Na.e$/`, "two-patterns-flag-s", `/^I.$/`}, {`/(?U)^N.*e/`, "two-patterns-flag-U", `/^ID.*/`},
+	{`/^Name|ID$/`, "two-patterns-alternation", `/^Tag|Note$/`}, {`/^(Name$/`, "two-patterns-first-invalid", `/^ID)$/`},
+	{`Name`, "two-patterns-plain+regexp", `/(?i)^id$/`}, {`/(?i)^id$/`, "two-patterns-regexp+plain", `name`},
+	{`Owner`, "two-patterns-plain", `Deep.Owner.Name`}, {`/^Owner\./`, "two-patterns-prefix", `/(?i)^deep\.tag$/`},
+}
+
 // c19E2EFixed are constructs a user would write against these field names.
 var c19E2EFixed = []c19E2EPat{
 	{`/^Name$/`, "anchored"}, {`/^Name/`, "anchor-left"}, {`/Name$/`, "anchor-right"}, {`/Name/`, "unanchored"}, {`/^name$/`, "anchored"},
@@ -114,6 +131,9 @@ var c19E2EFixed = []c19E2EPat{
 	{`Owner`, "plain-struct"}, {`owner`, "plain-struct"}, {`Deep.Owner`, "plain-struct"}, {`Deep.Owner.Σ`, "plain"}, {`deep.owner.σ`, "plain"}, {`deep.owner.ς`, "plain"},
 	{`Name.`, "plain-nearmiss"}, {`.Name`, "plain-nearmiss"}, {`Nam`, "plain-nearmiss"}, {`^Name$`, "plain-looks-like-regexp"}, {`Na.e`, "plain-looks-like-regexp"}, {`N.*`, "plain-looks-like-regexp"},
 	{`strasse`, "plain"}, {`STRAßE`, "plain"}, {`straße`, "plain"}, {`k`, "plain"}, {`K`, "plain"}, {`kK`, "plain"}, {`KK`, "plain"}, {`nameſ`, "plain"}, {`NAMES`, "plain"}, {`names`, "plain"}, {`nameS`, "plain"},
+	// members spelled like predeclared identifiers: names like any other
+	{`len`, "plain-predeclared-name"}, {`error`, "plain-predeclared-name"}, {`ERROR`, "plain-predeclared-name"}, {`string`, "plain-predeclared-name"}, {`String`, "plain-predeclared-name"},
+	{`Owner.max`, "plain-predeclared-name"}, {`Deep.Owner.max`, "plain-predeclared-name"}, {`max`, "plain-predeclared-name"}, {`/^len$/`, "anchored-predeclared-name"}, {`nil`, "plain-predeclared-name"}, {`_`, "plain-blank"},
 	// invalid regexps: the run must be rejected (and never crash)
 	{`/(/`, "invalid"}, {`/[a/`, "invalid"}, {`/a{2,1}/`, "invalid"}, {`/\pX/`, "invalid"}, {`/(?z)/`, "invalid"}, {`/a**/`, "invalid"}, {`/\8/`, "invalid"}, {`/+/`, "invalid"},
 }
@@ -179,17 +199,34 @@ func c19E2EGen(r *rand.Rand, all []string) c19E2EPat {
 func c19RunE2E(e *core.Env, rep *core.Report, n int) {
 	all, leaves := c19E2EPaths()
 	r := core.Rand(e.Seed, "c19-e2e")
-	pats := append([]c19E2EPat{}, c19E2EFixed...)
+	var pats []c19E2EPatS
+	for _, p := range c19E2EFixed {
+		pats = append(pats, c19E2EPatS{c19E2EPat: p})
+	}
+	for _, p := range c19E2EPairs {
+		pats = append(pats, c19E2EPatS{c19E2EPat{p[0], p[1]}, p[2]})
+	}
+	nFixed := len(pats)
 	seenPat := map[string]bool{}
 	for _, p := range pats {
-		seenPat[p.Text] = true
+		seenPat[p.Text+"\x00"+p.Second] = true
 	}
-	for tries := 0; len(pats) < len(c19E2EFixed)+n && tries < 20*n; tries++ {
-		p := c19E2EGen(r, all)
-		if seenPat[p.Text] || strings.ContainsAny(p.Text, " \t") {
+	for tries := 0; len(pats) < nFixed+n && tries < 20*n; tries++ {
+		p := c19E2EPatS{c19E2EPat: c19E2EGen(r, all)}
+		if strings.ContainsAny(p.Text, " \t") {
 			continue
 		}
-		seenPat[p.Text] = true
+		if r.Intn(8) == 0 {
+			// a second pattern on the same method
+			q := c19E2EGen(r, all)
+			if q.Text != p.Text && !strings.ContainsAny(q.Text, " \t") {
+				p.Second, p.Feat = q.Text, "two-patterns/"+p.Feat
+			}
+		}
+		if seenPat[p.Text+"\x00"+p.Second] {
+			continue
+		}
+		seenPat[p.Text+"\x00"+p.Second] = true
 		pats = append(pats, p)
 	}
 	var ss []*scen.Scenario
@@ -216,6 +253,9 @@ func c19RunE2E(e *core.Env, rep *core.Report, n int) {
 			default:
 				m.Notations = []scen.Notation{scen.N("skip", p.Text), scen.N("case:off")}
 			}
+			if p.Second != "" {
+				m.Notations = append(m.Notations, scen.N("skip", p.Second))
+			}
 			ms = append(ms, m)
 		}
 		ss = append(ss, b.Manual(ms...))
@@ -230,6 +270,16 @@ func c19RunE2E(e *core.Env, rep *core.Report, n int) {
 	for i, c := range b.Cases {
 		p := pats[i]
 		ref := rc.get(p.Text)
+		var ref2 *c19Ref
+		if p.Second != "" {
+			ref2 = rc.get(p.Second)
+			if !ref2.valid || ref2.undecided {
+				if ref.valid && !ref.undecided {
+					ref = ref2 // the file must be refused for its invalid pattern, whichever line holds it
+				}
+				ref2 = nil
+			}
+		}
 		rep.Histo("e2e_construct", strings.SplitN(p.Feat, "/", 2)[0])
 		viol := func(symptom string, feat map[string]string, detail string) {
 			feat["pattern_kind"] = ref.kind()
@@ -281,12 +331,12 @@ func c19RunE2E(e *core.Env, rep *core.Report, n int) {
 				segs := strings.Split(leaf, ".")
 				for k := 1; k <= len(segs); k++ {
 					pre := strings.Join(segs[:k], ".")
-					if ref.match(pre, v.exact) {
+					if ref.match(pre, v.exact) || (ref2 != nil && ref2.match(pre, v.exact)) {
 						want, by = true, pre
 						break
 					}
 				}
-				if ref.undecided {
+				if ref.undecided || (ref2 != nil && ref2.undecided) {
 					break
 				}
 				lo := ObserveLeaf(fi, roleOf, leaf)
@@ -308,7 +358,7 @@ func c19RunE2E(e *core.Env, rep *core.Report, n int) {
 						map[bool]string{true: " via " + by, false: ""}[want]))
 			}
 		}
-		if i < 3 || i == len(c19E2EFixed) {
+		if i < 3 || i == nFixed {
 			rep.Sample(map[string]any{"part": "t", "pattern": p.Text, "construct": p.Feat, "exit": c.Run.Exit, "functions": len(infos), "leaves_judged_per_function": len(leaves)}, 4)
 		}
 	}
